@@ -24,6 +24,7 @@ void hist_reset(int m, int cap) {
   hclock = 0;
 }
 int hist_invoke(int thread, int op, long arg) {
+  sim_tso_sync();
   if (nh >= HMAX) sim_violation("SIM-history-overflow", "more than %d operations recorded", HMAX);
   hop_t* h = &H[nh];
   memset(h, 0, sizeof *h);
@@ -35,6 +36,9 @@ int hist_invoke(int thread, int op, long arg) {
   return nh++;
 }
 void hist_return(int idx, long res) {
+  /* TSO runs: an operation counts as complete when its stores have drained - the recorded real-time order is
+   * the simulator's global clock, which no observer on real hardware has */
+  sim_tso_sync();
   H[idx].res = res;
   H[idx].ret = ++hclock;
   H[idx].done = 1;
